@@ -226,18 +226,37 @@ where
       'handshake: loop {
         if self.zmtp_engine.phase == ZmtpPhase::Data
           || self.zmtp_engine.phase == ZmtpPhase::Closed
-          || matches!(self.current_phase, ConnectionPhaseX::Terminating)
+          || matches!(
+            self.current_phase,
+            ConnectionPhaseX::Terminating | ConnectionPhaseX::ShuttingDownStream
+          )
         {
           break 'handshake;
         }
 
         // The handshake interval bounds the whole handshake, not each read: a peer
         // that drips bytes must not be able to hold the connection open forever.
-        let read_result = tokio::time::timeout_at(
-          hs_deadline,
-          hs_read_half.read_buf(&mut self.handshake_read_buf),
-        )
-        .await;
+        // Context termination / the parent socket closing must also end a handshake
+        // that is still waiting for the peer; otherwise close()/term() wait for it.
+        let read_result = tokio::select! {
+          biased;
+          maybe_event = self.system_event_receiver.recv() => {
+            match maybe_event {
+              Ok(event) => self.process_system_event(event).await,
+              Err(broadcast::error::RecvError::Lagged(_)) => {}
+              Err(broadcast::error::RecvError::Closed) => {
+                self
+                  .set_fatal_error(ZmqError::Internal("System event channel closed".into()))
+                  .await;
+              }
+            }
+            continue 'handshake;
+          }
+          r = tokio::time::timeout_at(
+            hs_deadline,
+            hs_read_half.read_buf(&mut self.handshake_read_buf),
+          ) => r,
+        };
 
         match read_result {
           Err(_elapsed) => {
